@@ -613,7 +613,7 @@ func (r *reloadInst) deliverAnswer(p ReloadProbe) string {
 	if rec.Code != 202 {
 		return fmt.Sprintf("status=%d", rec.Code)
 	}
-	deadline := time.Now().Add(2500 * time.Millisecond)
+	deadline := time.Now().Add(6 * time.Second) // "undelivered" is an answer only after a generous wait (busy machines)
 	for time.Now().Before(deadline) {
 		sinkMu.Lock()
 		h, ok := sinkHits[tok]
